@@ -437,11 +437,20 @@ pub fn ports_of(cfg: &Cfg) -> Option<usize> {
         "fanout" | "unzip" | "state" => 2,
         "demux" => cfg.get("n").and_then(|s| s.parse().ok()).filter(|n| (1..=3).contains(n))?,
         "for_each" | "vec_push" => 0,
+        "pipe" => match cfg.get("id")? {
+            "1" | "2" => 1,
+            "3" | "4" | "5" => 2,
+            _ => return None,
+        },
         _ => return None,
     })
 }
-pub fn keyed(cfg: &Cfg) -> bool {
-    matches!(cfg.comb.as_str(), "fold_keyed" | "reduce_keyed")
+/// sends on this port come out in hash-map order
+pub fn keyed(cfg: &Cfg, port: usize) -> bool {
+    matches!(cfg.comb.as_str(), "fold_keyed" | "reduce_keyed") || (cfg.comb == "pipe" && cfg.get("id") == Some("4") && port == 0)
+}
+pub fn f_key(x: i64) -> (i64, i64) {
+    (x.rem_euclid(2), x)
 }
 
 type Aux = Box<dyn FnOnce() -> String>;
@@ -627,6 +636,54 @@ fn build(cfg: &Cfg, downs: &Downs, plan: &Plan) -> Result<(Mode, Aux), String> {
             )?;
             (m, Box::new(move || unsafe { Box::from_raw(sp) }.show()))
         }
+        // fixed pipelines: the composition `Comb.comp` / `Comb.comp2` of the model against real nesting
+        "pipe" => match cfg.get("id") {
+            Some("1") => {
+                let (buf, bp) = leak(parse_csv("buf")?);
+                let m = finish(
+                    push::map(f_map, push::flat_map(f_flat, push::persist_state(buf, true, push::sort(leaf::<i64>(0, downs, log))))),
+                    p_i,
+                    plan,
+                )?;
+                (m, Box::new(move || show_list(&unsafe { *Box::from_raw(bp) })))
+            }
+            Some("2") => {
+                let m = finish(
+                    push::filter(
+                        |x: &i64| p_filter(*x),
+                        push::flat_map(f_flat, push::fold(0i64, |a: &mut i64, x: i64| *a = f_fold(*a, x), leaf::<i64>(0, downs, log))),
+                    ),
+                    p_i,
+                    plan,
+                )?;
+                (m, no_aux)
+            }
+            Some("3") => {
+                let m = finish(
+                    push::flat_map(f_flat, push::fanout(leaf::<i64>(0, downs, log), push::filter_map(f_filter_map, leaf::<i64>(1, downs, log)))),
+                    p_i,
+                    plan,
+                )?;
+                (m, no_aux)
+            }
+            Some("4") => {
+                let (map, mp) = leak(parse_map("map")?);
+                let fk = push::FoldKeyed::new(map, || 0i64, |a: &mut i64, v: i64| *a = f_fold(*a, v), leaf::<(i64, i64)>(0, downs, log));
+                let m = finish(push::fanout(push::map(f_key, fk), leaf::<i64>(1, downs, log)), p_i, plan)?;
+                (m, Box::new(move || show_map(&unsafe { *Box::from_raw(mp) })))
+            }
+            Some("5") => {
+                let (q, qp) = leak(ScriptQueue::<true>::default());
+                let rf = push::resolve_futures_state(q, Some(Waker::noop().clone()), leaf::<i64>(0, downs, log));
+                let m = finish(
+                    push::fanout(push::map(|x: i64| ScriptFut { delay: x.rem_euclid(4) as u32, out: Some(x) }, rf), leaf::<i64>(1, downs, log)),
+                    p_i,
+                    plan,
+                )?;
+                (m, Box::new(move || unsafe { Box::from_raw(qp) }.q.len().to_string()))
+            }
+            _ => return Err("unknown pipe".into()),
+        },
         _ => return Err("unknown combinator".into()),
     })
 }
@@ -749,6 +806,34 @@ pub fn spec(cfg: &Cfg, inputs: &[String]) -> Option<Expect> {
             aux = Some(show_list(&csv("buf").into_iter().chain(ints()?).collect::<Vec<_>>()));
             vec![]
         }
+        "pipe" => match cfg.get("id")? {
+            "1" => {
+                let flat: Vec<i64> = ints()?.into_iter().map(f_map).flat_map(f_flat).collect();
+                let all: Vec<i64> = csv("buf").into_iter().chain(flat).collect();
+                aux = Some(show_list(&all));
+                let mut v = all;
+                v.sort();
+                vec![sh(v)]
+            }
+            "2" => vec![sh(vec![ints()?.into_iter().filter(|x| p_filter(*x)).flat_map(f_flat).fold(0, f_fold)])],
+            "3" => {
+                let flat: Vec<i64> = ints()?.into_iter().flat_map(f_flat).collect();
+                vec![sh(flat.clone()), sh(flat.into_iter().filter_map(f_filter_map).collect())]
+            }
+            "4" => {
+                ordered = false;
+                let mut m: BTreeMap<i64, i64> = pairs_cfg("map").into_iter().collect();
+                for x in ints()? {
+                    let (k, v) = f_key(x);
+                    let a = m.entry(k).or_insert(0);
+                    *a = f_fold(*a, v);
+                }
+                aux = Some(if m.is_empty() { "-".into() } else { m.iter().map(|(k, v)| format!("{k}:{v}")).collect::<Vec<_>>().join(",") });
+                vec![m.iter().map(|(k, v)| (*k, *v).show()).collect(), sh(ints()?)]
+            }
+            "5" => vec![sh(ints()?), sh(ints()?)],
+            _ => return None,
+        },
         "state" => {
             let mut st: BTreeSet<i64> = csv("st").into_iter().collect();
             let mut changed = vec![];
@@ -838,13 +923,13 @@ impl Case {
     }
 
     fn new_events(&mut self) -> String {
-        let keyed = self.cfg.as_ref().map(keyed).unwrap_or(false);
+        let cfg = self.cfg.clone().unwrap_or_default();
         let l = self.log.0.borrow();
         let evs: Vec<String> = l[self.cursor..]
             .iter()
             .map(|(p, e)| match e {
                 EvK::R(b) => format!("{p}r{}", *b as u8),
-                EvK::S(_) if keyed => format!("{p}s*"),
+                EvK::S(_) if keyed(&cfg, *p) => format!("{p}s*"),
                 EvK::S(v) => format!("{p}s{v}"),
                 EvK::F(b) => format!("{p}f{}", *b as u8),
             })
@@ -1013,7 +1098,7 @@ impl Case {
         }
         // the non-blocking ResolveFutures keeps unresolved futures for a later tick; it may emit
         // them when re-polled after the downstream's finalize was started (see level_note)
-        let lenient = comb == "resolve" && cfg.flag("waker");
+        let nonblocking = (comb == "resolve" && cfg.flag("waker")) || (comb == "pipe" && cfg.get("id") == Some("5"));
         // 1. protocol per port
         let mut delivered: Vec<Vec<String>> = vec![vec![]; nports.max(1)];
         let mut closed = vec![false; nports.max(1)];
@@ -1030,7 +1115,7 @@ impl Case {
                         if !ready {
                             unreadied += 1;
                         }
-                        if lenient {
+                        if nonblocking && port == 0 {
                             if done {
                                 after_done_lenient += 1;
                             }
@@ -1073,12 +1158,12 @@ impl Case {
             rec.check(false, &format!("spec-missing@{comb}"), &d);
             return;
         };
-        let blocking = !(comb == "resolve" && cfg.flag("waker"));
+        let blocking = !nonblocking;
         for port in 0..nports {
             let got = &delivered[port];
             let want = &exp.per_port[port];
-            if complete && blocking {
-                let ok = if exp.ordered {
+            if complete && (blocking || port != 0) {
+                let ok = if exp.ordered || (comb == "pipe" && port != 0) {
                     got == want
                 } else {
                     let (mut a, mut b) = (got.clone(), want.clone());
@@ -1090,7 +1175,7 @@ impl Case {
                 rec.check(closed[port], &format!("not-finalized@{comb}"), &format!("port={port} {d}"));
             } else {
                 // partial run (or non-blocking resolve): nothing but (a prefix / sub-multiset of) the specified items
-                let ok = if exp.ordered && comb != "state" {
+                let ok = if exp.ordered && comb != "state" && !(nonblocking && port == 0 && comb == "pipe") {
                     got.len() <= want.len() && got[..] == want[..got.len()]
                 } else {
                     let mut w = want.clone();
@@ -1110,7 +1195,7 @@ impl Case {
                     rec.check(a == aux, &format!("external-state@{comb}"), &format!("got={aux} want={a} {d}"));
                 }
             }
-            if comb == "resolve" && cfg.flag("waker") {
+            if nonblocking {
                 // non-blocking: delivered + still queued = everything
                 let total = exp.per_port[0].len();
                 let left: usize = aux.parse().unwrap_or(usize::MAX);
